@@ -26,6 +26,7 @@ func (p *Program) LoadConsts() error {
 	ifaceVars := map[string]bool{}
 	ptrFields := map[string]bool{}
 	tables := map[string][][3]string{} // package -> (variable, field, "int"|"func")
+	sliceTables := map[string][][3]string{}
 	var pkgPaths []string
 	wantPkg := map[string]bool{}
 	for _, f := range p.CS.Files {
@@ -94,6 +95,26 @@ func (p *Program) LoadConsts() error {
 						}
 					}
 				}
+			} else if sl, ok := v.Type().Underlying().(*types.Slice); ok && strings.HasPrefix(pp, cadenceMod) {
+				// dispatch tables written as a slice of structs with a string field Name (ConverterDeclarations): keyed by
+				// that name, like the map-shaped tables
+				if st, ok := sl.Elem().Underlying().(*types.Struct); ok {
+					hasName := false
+					for i := 0; i < st.NumFields(); i++ {
+						if b, isB := st.Field(i).Type().Underlying().(*types.Basic); isB && b.Kind() == types.String && st.Field(i).Name() == "Name" {
+							hasName = true
+						}
+					}
+					if hasName {
+						for i := 0; i < st.NumFields(); i++ {
+							if _, _, isInt := intInfo(st.Field(i).Type()); isInt {
+								sliceTables[pp] = append(sliceTables[pp], [3]string{n, st.Field(i).Name(), "int"})
+							} else if _, isFn := st.Field(i).Type().Underlying().(*types.Signature); isFn {
+								sliceTables[pp] = append(sliceTables[pp], [3]string{n, st.Field(i).Name(), "func"})
+							}
+						}
+					}
+				}
 			} else if st, ok := v.Type().Underlying().(*types.Struct); ok && st.NumFields() > 0 && st.NumFields() <= 4 {
 				// small structs of integers (MemoryUsage, ComputationUsage): one entry per field
 				allInt := true
@@ -109,7 +130,7 @@ func (p *Program) LoadConsts() error {
 				}
 			}
 		}
-		if len(byPkg[pp]) > 0 || len(tables[pp]) > 0 {
+		if len(byPkg[pp]) > 0 || len(tables[pp]) > 0 || len(sliceTables[pp]) > 0 {
 			pkgPaths = append(pkgPaths, pp)
 		}
 	}
@@ -163,6 +184,13 @@ func (p *Program) LoadConsts() error {
 				fmt.Fprintf(&src, "\tfor k, e := range %s { emit(%q+\"[\"+k+\"].%s\", verifFmt.Sprint(e.%s)) }\n", tb[0], pp+"."+tb[0], tb[1], tb[1])
 			} else {
 				fmt.Fprintf(&src, "\tfor k, e := range %s { emit(%q+\"[\"+k+\"].%s\", \"func:\"+verifFuncName(e.%s)) }\n", tb[0], pp+"."+tb[0], tb[1], tb[1])
+			}
+		}
+		for _, tb := range sliceTables[pp] {
+			if tb[2] == "int" {
+				fmt.Fprintf(&src, "\tfor _, e := range %s { emit(%q+\"[\"+e.Name+\"].%s\", verifFmt.Sprint(e.%s)) }\n", tb[0], pp+"."+tb[0], tb[1], tb[1])
+			} else {
+				fmt.Fprintf(&src, "\tfor _, e := range %s { emit(%q+\"[\"+e.Name+\"].%s\", \"func:\"+verifFuncName(e.%s)) }\n", tb[0], pp+"."+tb[0], tb[1], tb[1])
 			}
 		}
 		src.WriteString("}\n")
